@@ -335,6 +335,17 @@ pub trait Sut {
     fn iter_cmp(&self) -> Option<[bool; 4]> {
         None
     }
+    /// The selecting consumers with a comparator under which many items tie (`sel_rank`): `max_by`, `min_by`,
+    /// `max_by_key`, `min_by_key` front to back and `max_by`, `min_by` behind `rev()`. Which of several equal
+    /// extrema comes back is fixed by std (the last maximum, the first minimum).
+    fn iter_select(&self) -> Option<[Option<Item>; 6]> {
+        None
+    }
+}
+
+/// A coarse rank of an item: three classes, so that maxima and minima are never unique in a collection of any size.
+pub fn sel_rank(x: &Item) -> i64 {
+    ((x[0] * 16.0) as i64).rem_euclid(3)
 }
 
 pub struct TypeDesc {
@@ -582,6 +593,18 @@ macro_rules! soa {
                 fn iter_cmp(&self) -> Option<[bool; 4]> {
                     let own = || self.0.clone().into_iter();
                     Some([own().eq(own()), own().eq(own().filter(|_| true)), own().eq(own().skip(1)), own().ne(own().filter(|_| true))])
+                }
+                fn iter_select(&self) -> Option<[Option<Item>; 6]> {
+                    let own = || self.0.clone().into_iter();
+                    let rank = |c: &C<f32>| sel_rank(&to_item(*c));
+                    Some([
+                        own().max_by(|a, b| rank(a).cmp(&rank(b))).map(to_item),
+                        own().min_by(|a, b| rank(a).cmp(&rank(b))).map(to_item),
+                        own().max_by_key(|c| rank(c)).map(to_item),
+                        own().min_by_key(|c| rank(c)).map(to_item),
+                        own().rev().max_by(|a, b| rank(a).cmp(&rank(b))).map(to_item),
+                        own().rev().min_by(|a, b| rank(a).cmp(&rank(b))).map(to_item),
+                    ])
                 }
                 fn iter_mut<'a>(&'a mut self) -> Option<Box<dyn It + 'a>> {
                     Some(Box::new(WriteIt(
@@ -839,6 +862,18 @@ macro_rules! soa {
                 fn iter_cmp(&self) -> Option<[bool; 4]> {
                     let own = || self.0.clone().into_iter();
                     Some([own().eq(own()), own().eq(own().filter(|_| true)), own().eq(own().skip(1)), own().ne(own().filter(|_| true))])
+                }
+                fn iter_select(&self) -> Option<[Option<Item>; 6]> {
+                    let own = || self.0.clone().into_iter();
+                    let rank = |c: &Alpha<C<f32>, f32>| sel_rank(&to_item_a(*c));
+                    Some([
+                        own().max_by(|a, b| rank(a).cmp(&rank(b))).map(to_item_a),
+                        own().min_by(|a, b| rank(a).cmp(&rank(b))).map(to_item_a),
+                        own().max_by_key(|c| rank(c)).map(to_item_a),
+                        own().min_by_key(|c| rank(c)).map(to_item_a),
+                        own().rev().max_by(|a, b| rank(a).cmp(&rank(b))).map(to_item_a),
+                        own().rev().min_by(|a, b| rank(a).cmp(&rank(b))).map(to_item_a),
+                    ])
                 }
                 fn iter_mut<'a>(&'a mut self) -> Option<Box<dyn It + 'a>> {
                     Some(Box::new(WriteIt(self.0.iter_mut(), rd_a, wr_a)))
